@@ -7,6 +7,7 @@ package c01
 import (
 	"encoding/json"
 	"fmt"
+	"strings"
 	"math/big"
 	"sort"
 
@@ -445,7 +446,10 @@ func run(c *engine.Ctx) {
 					g = rg.Union(g, gen.Cycle(21-g.N+3))
 					name += "+pad"
 				}
-				if combo == 3 {
+				// complements, except of many disjoint triangles: the complement of m K3 (complete multipartite
+				// K_{3,...,3}) makes the library's search tree grow exponentially in m (measured: 1.3 s per call at
+				// m = 5, more than 30 CPU-s at m = 7), which is slow but not wrong
+				if combo == 3 && !(strings.HasSuffix(b.name, "K3") && m/3 >= 5) {
 					g = g.Complement()
 					name = "co(" + name + ")"
 				}
